@@ -551,6 +551,11 @@ def _(E, c):
         if E.ctx.branch(b_and(v.v >= lo, v.v <= hi)):
             return ok(IntV(v.v, dst.strip()), c.dest_ty)
         return err(OpaqueV('TryFromBigIntError'), c.dest_ty)
+    if m == 'try_into' and dst and c.callee.qself:
+        # blanket impl: T: TryInto<U> through U: TryFrom<T> (defined by the repository or a macro it expands)
+        tf = parse_callee('<%s as TryFrom<%s>>::try_from' % (dst.strip(), c.callee.qself.strip()))
+        if E.lookup_functions(tf, 1):
+            return E.do_call(c.frame, '<%s as TryFrom<%s>>::try_from' % (dst.strip(), c.callee.qself.strip()), list(c.args), c.dest_ty, c.arg_tys)
     return NotImplemented
 
 
@@ -787,6 +792,10 @@ INT_RE = '(u8|u16|u32|u64|u128|usize|i8|i16|i32|i64|i128|isize)'
 def _int_method(E, c, ty, m):
     a = [E.deref(x) for x in c.args]
     lo, hi = INT_TYPES[ty]
+    if not a:
+        if m in ('max_value', 'min_value'):
+            return IntV(hi if m == 'max_value' else lo, ty)
+        return NotImplemented
     x = a[0].v
     if m in ('checked_add', 'checked_sub', 'checked_mul'):
         y = a[1].v
